@@ -63,7 +63,10 @@ VALUES_EXP = ["*", "a*", "{a,b}", "{1..3}", "a{b,c}d", "$(echo hi)", "`echo hi`"
               "$(x", "a`b", "$()", "``"]
 RAND_ALPHA = [">", "|", "&", "<", ";", "#", " ", "a", "1", "2", "'", '"', "$", "\n", "{", "}", "=", "X"]
 AFFIXES = [("", ""), ("p", ""), ("", ".q"), ("p", ".q")]
-POSITIONS = ["only", "first", "middle", "last"]
+# "escw": after a word that starts with an escaped bar (token tag backslash) and an untagged plain word -- a pass that
+# skips the tagged word without advancing its index writes the produced value over the plain word, where it keeps the
+# empty tag and is re-read as syntax (seed C13-expand-env-skip-without-index-advance)
+POSITIONS = ["only", "first", "middle", "last", "escw"]
 INNER = {"echo hi": "hi\n"}   # inner command lines that values may smuggle in, with their output
 
 
@@ -98,6 +101,8 @@ def place(arg, pos, prog=PROG):
         return "%s %s 'z'" % (prog, arg), [], ["z"]
     if pos == "middle":
         return "%s \"y\" %s 'z'" % (prog, arg), ["y"], ["z"]
+    if pos == "escw":
+        return "%s \\|x w %s 'z'" % (prog, arg), ["|x", "w"], ["z"]
     return "%s 'y' %s" % (prog, arg), ["y"], []
 
 
